@@ -104,12 +104,12 @@ def parse_quantity(s):
     if not tok:
         return ("UNSPEC", "empty")
     if not _NUMBER.match(tok[0]):
-        if not tok[0].isascii():
-            return ("UNSPEC", "non-ASCII characters in the value (Python's float() reads non-ASCII digits)")
         if re.match(r"^[+-]?(inf|infinity|nan)$", tok[0], re.I) or "_" in tok[0]:
             return ("UNSPEC", "special float literal (inf / nan / digit-group underscores are read by Python's float())")
         if re.match(r"^[+-]?([0-9]+(\.[0-9]*)?|\.[0-9]+)([eE][+-]?[0-9]+)?[A-Za-zµ]", tok[0]):
             return ("REJECT", "value-glued-to-unit")
+        if not tok[0].isascii():
+            return ("UNSPEC", "non-ASCII characters in the value (Python's float() reads non-ASCII digits)")
         return ("REJECT", "non-numeric-value")
     if len(tok) > 2:
         return ("REJECT", "blank")
